@@ -1,10 +1,231 @@
+/-
+  Props.C03 — kvgraph (MODEL `Grip.C03.step`) refines the abstract last-write-wins graph store
+  (SPEC `Grip.C03.Spec.specStep`), for every history of operations.
+
+  The refinement relation `Refines` and the side condition `NoReadd` are defined in
+  `GripProofs/Lemmas/C03Defs.lean`.  `Refines s a` says: graph keys ↔ `a.graphs`; vertex keys ↔
+  `a.getV` (label and data); edge records ↔ `a.getE` (at most one record per edge id, key
+  components = from/to/label of the record); every src/dst key ↔ an edge record; no duplicate
+  keys; stamps and clock equal; label fields of existing graphs registered; every live element has
+  its label-index entry and term key (the index may hold stale extras: the reads filter them).
+
+  Open finding C03-edge-readd: re-adding a live edge id with different endpoints or label leaves
+  two edge records in kvgraph (and in the MODEL).  The full-strength refinement is therefore false;
+  it is proved as `…_partial` under the decidable side condition `NoReadd`, and its negation is
+  proved on the concrete witness history (`edge_readd_witness`).
+-/
 import Grip.Model.C03
 import Grip.Spec.C03
-namespace Grip.Props.C03
-open Grip.C03
+import GripProofs.Lemmas.C03Lbl
+import GripProofs.Lemmas.C03Names
+import GripProofs.Lemmas.C03Cor
 
-/-- placeholder obligation replaced below as the refinement proofs land -/
-theorem touch_changes_stamp (s : KState) (g : String) : (s.touch g).stamp g = some (s.clock + 1) := by
-  simp [KState.touch, KState.stamp]
+namespace Grip.Props.C03
+open Grip Grip.C03 Grip.C03.Spec
+
+/-- The empty store represents the empty abstract graph store. -/
+theorem refines_init : Refines {} {} := by
+  refine ⟨?_, rfl, rfl, by simp⟩
+  constructor <;> simp [Lemmas.KeysNodup, KV.get, AG.getV, AG.getE, edgeAt]
+
+/-- One operation.  PARTIAL: holds under `NoReadd a op`, which
+    (1) excludes the region of the open finding C03-edge-readd (a valid edge of an addE/bulk batch
+        re-using the id of a live edge, or of an earlier valid edge of the batch, with different
+        from/to/label), where the full statement is false (`edge_readd_witness`); and
+    (2) for `addGraph g` with a valid name assumes `GoodName g` (the first dot-component of
+        `g.v.label` / `g.e.label` is `g`), a fact about `String.splitOn` on dot-free names that is
+        true for every valid name but not proved in Lean.
+    What is missing for full strength: (1) a repair of kvgraph's insertEdge, (2) that string lemma. -/
+theorem step_refines_partial {s : KState} {a : AG} (h : Refines s a) (op : Op) (hop : NoReadd a op) :
+    Refines (step s op).1 (specStep a op).1 ∧ (step s op).2 = (specStep a op).2 := by
+  cases op with
+  | addGraph g => exact Lemmas.addGraph_refines h g (noReadd_addGraph hop)
+  | delGraph g => exact Lemmas.delGraph_refines h g
+  | addV g vs =>
+    have key : ∀ (vs : List VertexIn) (a0 : AG), noReaddAll g a0 (vs.map .v) = true := by
+      intro vs
+      induction vs with
+      | nil => intro _; rfl
+      | cons v vs ih => intro a0; simp only [List.map_cons, noReaddAll, okElem, Bool.true_and]; exact ih _
+    exact Lemmas.addElems_refines h g (vs.map .v) (fun _ => key vs a)
+  | addE g es => exact Lemmas.addElems_refines h g (es.map .e) (noReadd_addE hop)
+  | bulk g xs => exact Lemmas.addElems_refines h g xs (noReadd_bulk hop)
+  | delV g id => exact Lemmas.delV_refines h g id
+  | delE g eid => exact Lemmas.delE_refines h g eid
+
+/-- Histories.  PARTIAL for the same two reasons as `step_refines_partial`: the side condition is
+    required of every operation of the history, at the abstract state reached before it. -/
+theorem history_refines_partial (ops : List Op) :
+    ∀ {s : KState} {a : AG}, Refines s a → NoReaddHist a ops → Refines (run s ops) (specRun a ops) := by
+  induction ops with
+  | nil => intro s a h _; exact h
+  | cons o os ih =>
+    intro s a h hh
+    rw [noReaddHist_cons] at hh
+    simp only [run, specRun, List.foldl_cons]
+    exact ih (step_refines_partial h o hh.1).1 hh.2
+
+/-- From the empty store. -/
+theorem history_refines_init_partial (ops : List Op) (hh : NoReaddHist {} ops) :
+    Refines (run {} ops) (specRun {} ops) :=
+  history_refines_partial ops refines_init hh
+
+/-! ### everything observable equals the abstract graph -/
+
+/-- Under the refinement relation every read of graph `g` the property calls observable —
+    lookup by id, full listings, neighbours and incident edges in both directions with any label
+    filter, the label-index scan, the label listings, graph existence and the timestamp — equals
+    the read of the abstract graph (listings as multisets: `List.Perm`; label listings as sets). -/
+theorem observe_eq {s : KState} {a : AG} (h : Refines s a) (g : String) :
+    (∀ id, getVertex s.kv g id = Spec.getVertex a g id) ∧
+    (∀ eid, getEdge s.kv g eid = Spec.getEdge a g eid) ∧
+    (vertexList s.kv g).Perm (Spec.vertexList a g) ∧
+    (edgeList s.kv g).Perm (Spec.edgeList a g) ∧
+    (∀ id labels, (outV s.kv g id labels).Perm (Spec.outV a g id labels)) ∧
+    (∀ id labels, (inV s.kv g id labels).Perm (Spec.inV a g id labels)) ∧
+    (∀ id labels, (outE s.kv g id labels).Perm (Spec.outE a g id labels)) ∧
+    (∀ id labels, (inE s.kv g id labels).Perm (Spec.inE a g id labels)) ∧
+    (∀ label, (verticesWithLabel s.kv g label).Perm (Spec.verticesWithLabel a g label)) ∧
+    (∀ l, l ∈ listVertexLabels s.kv g ↔ l ∈ Spec.listVertexLabels a g) ∧
+    (∀ l, l ∈ listEdgeLabels s.kv g ↔ l ∈ Spec.listEdgeLabels a g) ∧
+    hasGraph s g = a.graphs.contains g ∧
+    s.stamp g = a.stamp g :=
+  ⟨Lemmas.getVertex_eq h.inv g, Lemmas.getEdge_eq h.inv g, Lemmas.vertexList_perm h.inv g,
+   Lemmas.edgeList_perm h.inv g, Lemmas.outV_perm h.inv g, Lemmas.inV_perm h.inv g,
+   Lemmas.outE_perm h.inv g, Lemmas.inE_perm h.inv g, Lemmas.verticesWithLabel_perm h.inv g,
+   Lemmas.listVertexLabels_mem h.inv g, Lemmas.listEdgeLabels_mem h.inv g,
+   Lemmas.hasGraph_iff h g, by simp [KState.stamp, AG.stamp, h.stamps]⟩
+
+/-! ### the open finding: the full-strength statement is false -/
+
+/-- corpus/C03/kf-edge-readd.ops -/
+def witnessOps : List Op :=
+  [ .addGraph "g1",
+    .addV "g1" [⟨"a", "L", .obj []⟩, ⟨"b", "L", .obj []⟩],
+    .addE "g1" [⟨"e1", "L", "a", "b", .obj []⟩],
+    .addE "g1" [⟨"e1", "L", "b", "a", .obj []⟩] ]
+
+/-- Negation of the full-strength statement on the witness history of C03-edge-readd: after
+    re-adding edge `e1` with swapped endpoints the MODEL (= kvgraph) lists two records for `e1`,
+    the abstract graph one; so the edge listings are not permutations of one another and
+    `Refines` fails after this history (by `observe_eq`). -/
+theorem edge_readd_witness :
+    ((edgeList (run {} witnessOps).kv "g1").filter (·.gid = "e1")).length = 2 ∧
+    ((Spec.edgeList (specRun {} witnessOps) "g1").filter (·.gid = "e1")).length = 1 ∧
+    ¬ (edgeList (run {} witnessOps).kv "g1").Perm (Spec.edgeList (specRun {} witnessOps) "g1") ∧
+    ¬ NoReaddHist {} witnessOps := by
+  have h1 : ((edgeList (run {} witnessOps).kv "g1").filter (·.gid = "e1")).length = 2 := by
+    with_unfolding_all decide
+  have h2 : ((Spec.edgeList (specRun {} witnessOps) "g1").filter (·.gid = "e1")).length = 1 := by
+    with_unfolding_all decide
+  refine ⟨h1, h2, ?_, ?_⟩
+  · intro hp
+    have := (hp.filter (·.gid = "e1")).length_eq
+    rw [h1, h2] at this
+    exact absurd this (by decide)
+  · intro hh
+    have := (observe_eq (history_refines_init_partial witnessOps hh) "g1").2.2.2.1
+    have := (this.filter (·.gid = "e1")).length_eq
+    rw [h1, h2] at this
+    exact absurd this (by decide)
+
+/-! ### non-vacuity -/
+
+/-- a history that satisfies the side conditions (it re-adds `e1` with the same endpoints and new
+    data, re-adds vertex `a` with another label, deletes and re-creates) -/
+def goodOps : List Op :=
+  [ .addGraph "g1", .addGraph "g2",
+    .addV "g1" [⟨"a", "L", .obj []⟩, ⟨"b", "L", .obj []⟩, ⟨"", "L", .obj []⟩],
+    .addE "g1" [⟨"e1", "L", "a", "b", .obj []⟩],
+    .bulk "g1" [.e ⟨"e1", "L", "a", "b", .obj [("k", .num 1)]⟩, .v ⟨"a", "M", .obj []⟩],
+    .addE "g2" [⟨"e1", "L", "b", "a", .obj []⟩],
+    .delV "g1" "b", .delE "g2" "e1", .delGraph "g2" ]
+
+theorem goodOps_ok : NoReaddHist {} goodOps := by
+  unfold goodOps
+  rw [Lemmas.noReaddHist_addGraph Lemmas.goodName_g1, Lemmas.noReaddHist_addGraph Lemmas.goodName_g2]
+  with_unfolding_all decide
+
+/-- non-vacuity of `history_refines_partial`: the side conditions hold on `goodOps`, hence the
+    refinement relation holds after it -/
+example : Refines (run {} goodOps) (specRun {} goodOps) :=
+  history_refines_init_partial goodOps goodOps_ok
+
+/-- the side condition holds on the witness history up to the offending operation, and fails
+    with it (`edge_readd_witness`) -/
+example : NoReaddHist {} (witnessOps.take 3) := by
+  show NoReaddHist {} [.addGraph "g1", _, _]
+  rw [Lemmas.noReaddHist_addGraph Lemmas.goodName_g1]
+  with_unfolding_all decide
+
+/-! ### corollaries stated outright -/
+
+/-- Invalid elements are rejected with an error and change nothing: a non-empty AddVertex /
+    AddEdge / BulkAdd all of whose elements are invalid returns an error and leaves the whole
+    state (store, fields, timestamps, clock) as it was — on any state, no invariant needed.
+    (Invalid elements inside a mixed batch are skipped likewise: that is part of
+    `step_refines_partial`, since the SPEC's `putElem` ignores them.) -/
+theorem invalid_rejected (s : KState) (g : String) :
+    (∀ vs : List VertexIn, vs ≠ [] → (∀ v, v ∈ vs → validVertex v = false) →
+      step s (.addV g vs) = (s, .err)) ∧
+    (∀ es : List EdgeIn, es ≠ [] → (∀ e, e ∈ es → validEdge e = false) →
+      step s (.addE g es) = (s, .err)) ∧
+    (∀ xs : List ElemIn, xs ≠ [] → (∀ x, x ∈ xs → validElem x = false) →
+      step s (.bulk g xs) = (s, .err)) := by
+  refine ⟨fun vs hne h => ?_, fun es hne h => ?_, fun xs hne h => ?_⟩
+  · apply Lemmas.addElems_all_invalid s g (vs.map .v) (by simpa using hne)
+    intro x hx
+    obtain ⟨v, hv, rfl⟩ := List.mem_map.1 hx
+    exact h v hv
+  · apply Lemmas.addElems_all_invalid s g (es.map .e) (by simpa using hne)
+    intro x hx
+    obtain ⟨e, he, rfl⟩ := List.mem_map.1 hx
+    exact h e he
+  · exact Lemmas.addElems_all_invalid s g xs hne h
+
+/-- Deleting something absent changes nothing.  An absent edge: error, MODEL and SPEC states
+    unchanged.  An absent vertex with no (dangling) edge attached to its id: store and abstract
+    graph unchanged (the operation still counts as a write for the timestamp, as in the SPEC).
+    NOTE: edges may dangle (AddEdge does not check its endpoints), and kvgraph's DelVertex of an
+    absent vertex id does delete the dangling edges attached to that id; the SPEC says the same, so
+    the hypothesis `he` is needed. -/
+theorem delete_absent_noop {s : KState} {a : AG} (h : Refines s a) (g : String) :
+    (∀ eid, a.getE g eid = none →
+      step s (.delE g eid) = (s, .err) ∧ specStep a (.delE g eid) = (a, .err)) ∧
+    (∀ id, g ∈ a.graphs → a.getV g id = none →
+      (∀ eid r, a.getE g eid = some r → r.frm ≠ id ∧ r.to ≠ id) →
+      (step s (.delV g id)).1.kv = s.kv ∧
+      (specStep a (.delV g id)).1.graphs = a.graphs ∧
+      (specStep a (.delV g id)).1.verts = a.verts ∧
+      (specStep a (.delV g id)).1.edges = a.edges) :=
+  ⟨fun eid hr => Lemmas.delE_absent h g eid hr, fun id hg hv he => Lemmas.delV_absent h g id hg hv he⟩
+
+/-- The timestamp reported for graph `g` changes across an operation iff the operation is a
+    write to `g` (`Wrote`: created `g`, deleted `g`, accepted at least one element for existing
+    `g`, deleted a vertex on existing `g`, deleted an existing edge of `g`) — in particular it
+    never changes for a graph other than the one the operation addresses.  No side condition: the
+    timestamp behaviour is right even in the region of the open finding. -/
+theorem timestamp_iff_write {s : KState} {a : AG} (h : Refines s a) (op : Op) (g : String) :
+    ((step s op).1.stamp g ≠ s.stamp g ↔ Wrote a op g) ∧
+    ((specStep a op).1.stamp g ≠ a.stamp g ↔ Wrote a op g) ∧
+    (g ≠ opGraph op → (step s op).1.stamp g = s.stamp g) := by
+  have hm : (step s op).1.stamp g = (specStep a op).1.stamp g := by
+    simp [KState.stamp, AG.stamp, (Lemmas.step_stamps h op).1]
+  have hs : s.stamp g = a.stamp g := by simp [KState.stamp, AG.stamp, h.stamps]
+  have hsp := Lemmas.spec_stamp_iff h.stampLe op g
+  refine ⟨by rw [hm, hs]; exact hsp, hsp, ?_⟩
+  intro hne
+  rw [hm, hs]
+  apply Classical.byContradiction
+  intro hc
+  have hw := hsp.1 hc
+  cases op with
+  | delGraph g0 => exact hne hw
+  | addGraph g0 => exact hne hw.1
+  | addV g0 _ => exact hne hw.1
+  | addE g0 _ => exact hne hw.1
+  | bulk g0 _ => exact hne hw.1
+  | delV g0 _ => exact hne hw.1
+  | delE g0 _ => exact hne hw.1
 
 end Grip.Props.C03
